@@ -23,6 +23,7 @@ SERVICES = [
     {"name": "t_app", "id": 7, "hosts": ["tls.test"], "prefixes": ["/app"], "strip": True, "forward": True, "tls": False},
     {"name": "w_root", "id": 9, "hosts": ["slow.test"], "prefixes": ["/"], "strip": False, "forward": False, "tls": False,
      "target_timeout_ms": 250},      # a short target timeout: it bounds the wait for the response HEADERS only
+    {"name": "x_mix", "id": 10, "hosts": ["mix.test"], "prefixes": ["/", "/app"], "strip": True, "forward": False, "tls": False},   # root AND a sub-path, stripping
     {"name": "m_sub", "id": 8, "hosts": ["multi.test"], "prefixes": ["/a!b", "/x/y/z"], "strip": True, "forward": False, "tls": False},
 ]
 SVC_ID = {s["name"]: s["id"] for s in SERVICES}
@@ -392,6 +393,19 @@ def gen_cases(seed, tier):
         cls = "valid"
         cases.append(make_case(rnd, cid, cls, fx))
         cid += 1
+    # one service with the root prefix and a sub-path, prefix stripping on: the matched prefix decides
+    for t in (b"/app/show?x=1", b"/app", b"/app/", b"/apple/pie", b"/other/app/x", b"/app/a%2Fb"):
+        cases.append(make_case(rnd, cid, "valid", {"host": "mix.test", "target": t, "method": "GET", "headers": []}))
+        cid += 1
+    # requests IN FLIGHT TOGETHER to one target, each with its own path and query (sent concurrently: "par" groups)
+    for g in (1, 2, 3):
+        host = ["keep.test", "strip.test", "mix.test"][g - 1]
+        for k in range(24):
+            t = b"/app/g%d/item-%d/%s?k=%d&%s" % (g, k, b"x" * (k % 7), k, b"q=" + bytes([97 + k % 26]) * (k % 5))
+            c = make_case(rnd, cid, "valid", {"host": host, "target": t, "method": "GET", "headers": []})
+            c["par"] = g
+            cases.append(c)
+            cid += 1
     names = [c for c, _ in CLASSES]
     weights = [w for _, w in CLASSES]
     while cid <= n:
